@@ -159,3 +159,6 @@ _add_family(globals(), _vs, 'valuesnap', _vs.oracle, share=0.08)
 # one update naming its own updater among ordinary ones: afterwards the declared updater sums again
 from harness import onceset as _os                  # noqa: E402
 _add_family(globals(), _os, 'onceset', _os.oracle, share=0.05)
+# a process returning the same update object from every call through several ports: each update applied once
+from harness import reuseupd as _ru                 # noqa: E402
+_add_family(globals(), _ru, 'reuseupd', _ru.oracle, share=0.04)
